@@ -108,7 +108,7 @@ fn gen_case(c: &mut dyn Choices, single: bool) -> Case {
   // (appended picks, so that recorded tapes keep their meaning) one case in eight is "long": the input is replaced
   // by 20..100 items over {0..3} or {0..999} - thresholds, batching and capacity logic only show at scale
   if !single && c.pick(8) == 7 {
-    let n = 20 + c.pick(81);
+    let n = pick_size(c, 20, 81, &[130, 257, 300, 520]);
     let alpha = if c.flag() { alphabet } else { 1000 };
     let items = gen_long_items(c, n, alpha);
     let term = match c.pick(3) {
